@@ -582,6 +582,30 @@ func c14FlushOnPush(c *Ctx, htcp *ssa.Function) {
 	// the wake-up: the method(s) of the socket that send on the channel its Read waits on (today: flush)
 	wake := map[*ssa.Function]bool{}
 	if rd := p.Method(canaryRel, "Socket", "Read"); rd != nil {
+		isSocketMethod := func(fn *ssa.Function) bool {
+			return fn != nil && fn.Blocks != nil && fn.Signature.Recv() != nil && NamedOf(fn.Signature.Recv().Type()) != nil && NamedOf(fn.Signature.Recv().Type()).Obj().Name() == "Socket"
+		}
+		// Read and the Socket helpers it calls (the wait may live in a helper)
+		waiters := []*ssa.Function{rd}
+		for i := 0; i < len(waiters) && i < 8; i++ {
+			for _, call := range Calls(waiters[i]) {
+				if hf := call.Common().StaticCallee(); isSocketMethod(hf) {
+					dup := false
+					for _, w := range waiters {
+						if w == hf {
+							dup = true
+						}
+					}
+					if !dup {
+						waiters = append(waiters, hf)
+					}
+				}
+			}
+		}
+		isWaiter := map[*ssa.Function]bool{}
+		for _, w := range waiters {
+			isWaiter[w] = true
+		}
 		waitField := map[int]bool{}
 		chanField := func(v ssa.Value) (int, bool) {
 			ld, ok := v.(*ssa.UnOp)
@@ -594,28 +618,30 @@ func c14FlushOnPush(c *Ctx, htcp *ssa.Function) {
 			}
 			return fa.Field, true
 		}
-		for _, b := range rd.Blocks {
-			for _, in := range b.Instrs {
-				switch x := in.(type) {
-				case *ssa.Select:
-					for _, st := range x.States {
-						if st.Dir == types.RecvOnly {
-							if fi, ok := chanField(st.Chan); ok {
-								waitField[fi] = true
+		for _, wfn := range waiters {
+			for _, b := range wfn.Blocks {
+				for _, in := range b.Instrs {
+					switch x := in.(type) {
+					case *ssa.Select:
+						for _, st := range x.States {
+							if st.Dir == types.RecvOnly {
+								if fi, ok := chanField(st.Chan); ok {
+									waitField[fi] = true
+								}
 							}
 						}
-					}
-				case *ssa.UnOp:
-					if x.Op == token.ARROW {
-						if fi, ok := chanField(x.X); ok {
-							waitField[fi] = true
+					case *ssa.UnOp:
+						if x.Op == token.ARROW {
+							if fi, ok := chanField(x.X); ok {
+								waitField[fi] = true
+							}
 						}
 					}
 				}
 			}
 		}
 		for _, fn := range p.FuncsIn(canaryRel) {
-			if fn == rd || fn.Blocks == nil || fn.Signature.Recv() == nil || NamedOf(fn.Signature.Recv().Type()) == nil || NamedOf(fn.Signature.Recv().Type()).Obj().Name() != "Socket" {
+			if isWaiter[fn] || !isSocketMethod(fn) {
 				continue
 			}
 			for _, b := range fn.Blocks {
@@ -634,6 +660,20 @@ func c14FlushOnPush(c *Ctx, htcp *ssa.Function) {
 							wake[fn] = true
 						}
 					}
+				}
+			}
+		}
+	}
+	for changed := true; changed; {
+		changed = false
+		for _, fn := range p.FuncsIn(canaryRel) {
+			if wake[fn] || fn.Blocks == nil || fn.Signature.Recv() == nil || NamedOf(fn.Signature.Recv().Type()) == nil || NamedOf(fn.Signature.Recv().Type()).Obj().Name() != "Socket" || fn.Name() == "Read" {
+				continue
+			}
+			for _, call := range Calls(fn) {
+				if _, isCall := call.(*ssa.Call); isCall && wake[call.Common().StaticCallee()] {
+					wake[fn] = true
+					changed = true
 				}
 			}
 		}
